@@ -1,6 +1,7 @@
 package harness
 
 import (
+	"bytes"
 	"encoding/json"
 	"fmt"
 	"os"
@@ -65,7 +66,9 @@ func TestTable(t *testing.T) {
 					rep.Mismatches = append(rep.Mismatches, TMismatch{Row: r, Field: "PANIC", Exp: "no panic", Obs: fmt.Sprint(p)})
 				}
 			}()
-			if bubbleKinds[kind] {
+			// rows that use the real DefaultJWKSFetcherStrategy run on the wall clock: it starts cache goroutines that
+			// cannot be stopped from outside, which a synctest bubble does not tolerate; nothing in them depends on the clock
+			if bubbleKinds[kind] && !bytes.Contains(r, []byte(`"keysrc":"uri`)) {
 				synctest.Test(t, func(t *testing.T) { run(rep, r) })
 			} else {
 				run(rep, r)
